@@ -141,6 +141,7 @@ func DefaultKnobs(r *Rng, sequential bool) simrt.Config {
 		cfg.StallP = []float64{0.002, 0.01, 0.05}[r.Intn(3)]
 	}
 	cfg.PostUnlockYield = r.Intn(5) < 2
+	cfg.AtomicYield = r.Intn(4) < 3
 	return cfg
 }
 
